@@ -142,11 +142,31 @@ func (proxy *Proxy) Differs(other *Proxy) (bool, error) {
 		return false, err
 	}
 
-	if proxy.Listen != newResolvedListen.String() || proxy.Upstream != other.Upstream {
+	if !sameListenAddr(proxy.Listen, newResolvedListen) || proxy.Upstream != other.Upstream {
 		return true, nil
 	}
 
 	return false, nil
+}
+
+// sameListenAddr reports whether current - the address a started proxy is bound to,
+// or the address a stopped proxy was configured with - denotes the resolved address:
+// the same port and the same IP, however it was spelled ("localhost:80" and
+// "127.0.0.1:80"; ":80" and the "[::]:80" or "0.0.0.0:80" it is bound to).
+func sameListenAddr(current string, resolved *net.TCPAddr) bool {
+	if current == resolved.String() {
+		return true
+	}
+	cur, err := net.ResolveTCPAddr("tcp", current)
+	if err != nil || cur.Port != resolved.Port {
+		return false
+	}
+	curAny := len(cur.IP) == 0 || cur.IP.IsUnspecified()
+	newAny := len(resolved.IP) == 0 || resolved.IP.IsUnspecified()
+	if curAny || newAny {
+		return curAny && newAny
+	}
+	return cur.IP.Equal(resolved.IP)
 }
 
 // This channel is to kill the blocking Accept() call below by closing the
